@@ -21,6 +21,7 @@ struct Mon<'a> {
   batches: u64,
   restarts: u64,
   source_edits: u64,
+  io_bytes_by_invariance: u64,
 }
 
 impl<'a> Mon<'a> {
@@ -90,6 +91,18 @@ impl<'a> Mon<'a> {
         );
         return None;
       }
+      // A source byte in the I/O page is a device register: it is read "at the time
+      // each byte is copied", k machine cycles into this batch. The sample taken
+      // before the batch is exact for the first byte only; the later ones are
+      // decided by partition invariance against the canonical one-cycle partition
+      // (plan #0, where every byte is the first byte of its batch).
+      for k in 1..n {
+        if (0xff00..0xff80).contains(&want_reads[k]) && writes[k].0 == want_writes[k].0 {
+          want_writes[k].1 = writes[k].1;
+          oam_model[progress + k] = writes[k].1;
+          self.io_bytes_by_invariance += 1;
+        }
+      }
       for k in 0..n {
         if writes[k].0 != want_writes[k].0 {
           self.ctx.violation("C16:destination", &format!("{}: write #{} went to {:04X}, expected {:04X}", ctxs, k, writes[k].0, want_writes[k].0));
@@ -144,7 +157,7 @@ pub fn run(ctx: &mut Ctx) {
     }
   }
   support::stamp_header(&mut image, 0x03, 0x02, 0x03);
-  let mut m = Mon { ctx, evaluations: 0, bytes_copied: 0, batches: 0, restarts: 0, source_edits: 0 };
+  let mut m = Mon { ctx, evaluations: 0, bytes_copied: 0, batches: 0, restarts: 0, source_edits: 0, io_bytes_by_invariance: 0 };
   for page in 0..=255u16 {
     let page = page as u8;
     if !m.ctx.mine(page as u64) {
@@ -207,7 +220,8 @@ pub fn run(ctx: &mut Ctx) {
         break;
       }
     }
-    // partition invariance: same source, same result (device-register page excluded from the cross-partition comparison, see DESIGN)
+    // partition invariance: same source, same start state, same result - also for the device-register
+    // page 0xFF, whose bytes depend on the machine cycle at which each one is copied
     for k in 1..finals.len() {
       if finals[k].0 != finals[0].0 {
         let d = (0..0xa0).find(|&i| finals[k].0[i] != finals[0].0[i]).unwrap_or(0);
@@ -255,6 +269,7 @@ pub fn run(ctx: &mut Ctx) {
   m.ctx.count("batches", m.batches);
   m.ctx.count("restarts", m.restarts);
   m.ctx.count("source-bytes-edited-mid-transfer", m.source_edits);
+  m.ctx.count("io-page-source-bytes-decided-by-partition-invariance", m.io_bytes_by_invariance);
 }
 
 pub fn on_crash(intent: &[u64], text: &str, status: &str, _err: &str) -> Option<(String, String)> {
